@@ -88,6 +88,48 @@ class Tol:
 EXACT = Tol(exact=True)
 
 
+def diff_shallow(ptype, a, b, path=()):
+    """Like diff (exact), but reports the *shallowest* differing node: own fields before children.
+    Used for failure-atomicity violations, where the interesting node is the one whose merge started."""
+    if ptype == "Count":
+        return None if a == b else (list(path), ptype, "entries")
+    if not isinstance(a, dict) or not isinstance(b, dict):
+        return None if a == b else (list(path), ptype, "shape")
+    g = grammar.G.get(ptype)
+    if g is None:
+        return None if a == b else (list(path), ptype, "shape")
+    for k in sorted(set(a) | set(b)):
+        d = g["req"].get(k) or g["opt"].get(k)
+        kind = d[0] if d else "other"
+        if kind in ("frag", "list", "map", "tagged") and not (kind == "list" and d[1][0] == "obj"):
+            continue
+        if kind == "list":
+            ea = [{kk: e.get(kk) for kk in d[1][1] if d[1][1][kk][0] == "num"} for e in a.get(k, [])]
+            eb = [{kk: e.get(kk) for kk in d[1][1] if d[1][1][kk][0] == "num"} for e in b.get(k, [])]
+            if ea != eb:
+                return (list(path), ptype, k)
+            continue
+        if a.get(k) != b.get(k):
+            return (list(path), ptype, k)
+    try:
+        ca = grammar.children(ptype, a)
+        cb = grammar.children(ptype, b)
+    except (KeyError, TypeError, AttributeError):
+        return (list(path), ptype, "shape")
+    if [(p, t) for p, t, _ in ca] != [(p, t) for p, t, _ in cb]:
+        pa = [(p, t) for p, t, _ in ca]
+        pb = [(p, t) for p, t, _ in cb]
+        for p, t in pa + pb:
+            if (p, t) not in pa or (p, t) not in pb:
+                return (list(path), ptype, str(p[0]))
+        return (list(path), ptype, "structure")
+    for (p, t, fa), (_, _, fb) in zip(ca, cb):
+        d = diff_shallow(t, fa, fb, tuple(path) + tuple(p))
+        if d is not None:
+            return d
+    return None
+
+
 def diff(ptype, a, b, tol=EXACT, path=()):
     """First (deepest-first) difference between two fragments of the same declared type.
 
